@@ -6,7 +6,7 @@ class C16(Spec):
     drv = "drv_c16"
     harness = "h_c16"
     required_theorems = (
-        "C16.varint_injective", "C16.lenDelim_prefixFree", "C16.encode_inj", "C16.hash_binds", "C16.hash_changes",
+        "C16.varint_injective", "C16.lenDelim_prefixFree", "C16.encode_injective", "C16.hash_binds", "C16.hash_changes",
         "C16.hash_ignores", "C16.fullHash_binds", "C16.clone_preserves", "C16.clone_covers_fields",
         "C16.sign_verify", "C16.sign_binds", "C16.header_is_signed", "C16.disabled_rejects",
         "C16.unknown_type_rejects", "C16.unsigned_rejects", "C16.altered_sig_rejected_full_false",
